@@ -205,4 +205,7 @@ def run(ctx):
     # the compiler's pool depends on the flags (pshufb masks only with SSSE3 ...); a lookup that confuses the two kinds of entry makes
     # the result depend on them (rule shared with C02)
     importlib.import_module("rules.c02").const_pool_key(db, rep, "R-CONST-POOL-KEY")
+    # "the same results for every subset of the flags": the rule selected under one subset may not compute with a register nobody
+    # wrote where the rule selected under another subset does not (convslq: pmovsxdq under SSE4.1, the unpack sequence without)
+    importlib.import_module("rules.c17").two_operand_dest_defined(db, rep, "R-DEST-DEFINED")
 
